@@ -40,7 +40,8 @@ def run_(ctx):
     ctx.rule = ("a case = (call mix, bytes delivered caller->callee before the cut, bytes delivered callee->caller, chunk "
                 "sizes or split schedules, way the connection ends, reason class of the ending, other callables / a second connection using the "
                 "shared eventual queue, what happens to stalled/late work afterwards) on two real Brokers, or a "
-                "random abstract op sequence executed through the real callRemote/getRequest/complete/fail/finish; "
+                "random abstract op sequence executed through the real callRemote/getRequest/complete/fail/finish, or three real "
+                "Tubs with a call whose argument is a third-party reference followed by 0..5 calls that arrive while it waits; "
                 "distinct = distinct case tuple; non-trivial = at least one two-way request was in the table when the "
                 "connection ended, or the op sequence fired at least one Deferred")
     ctx.assumptions = [
@@ -48,8 +49,17 @@ def run_(ctx):
         "eventual-send queue is modelled from the translated shape of eventual.py (FIFO append, batch snapshot, per-event "
         "try/except); entries queued by foolscap itself for other purposes (doNextCall, tub bookkeeping) are not in the model",
         "logging inside PendingRequest.fail/complete (PLog) has no effect on the request and does not raise",
-        "the byte-level part (Banana parsing, Answer/Error unslicers reaching getRequest/complete/fail) is not modelled in Coq: "
-        "it is tied by the shape facts of translate/g_requests.py and exercised by the cut sweep",
+        "the receive path from bytes to complete()/fail() IS modelled (lib/AnswerRecv.v over the generic tokenizer lib/Recv.v) and "
+        "compared with the real Broker on the recorded byte streams; what the result constraint and the unslicers BELOW an "
+        "answer / error decide for a token (accept / Violation / BananaError / result not ready) is an oracle: the theorems hold "
+        "for every oracle, the correspondence instantiates it with the taster tables read from the real constraint objects and "
+        "'children accept what a well-behaved peer sends' (garbage injected in the middle of a token is therefore outside the "
+        "byte correspondence; it stays in the direct oracle); the incoming vocabulary table is constant after setup "
+        "(set-vocab/add-vocab sequences are treated like any other top-level sequence); top-level sequences other than answer/"
+        "error (inbound calls) are modelled only as far as nesting, Violations propagating to the root and fatal errors go",
+        "the send side (RootSlicer.sendQueue, a slicer paused on a Deferred, sendFailed) is not a separate machine in Coq: its "
+        "effect on a request is the operation Fail h o / nothing, which the theorems allow at any point of any history; the "
+        "direct oracle exercises it (stalled / failing streaming slicer with calls queued behind it, lost in that window)",
         "transports are in-memory; TLS and real sockets are not involved",
     ]
     ok, log = ctx.coq_build(["props/C03.vo"])
@@ -65,6 +75,11 @@ def run_(ctx):
         model_ok, _ = ctx.coq_build(["lib/Requests.vo"])
     if model_ok:
         correspond(ctx, traces)
+        bytes_ok = ok or ctx.coq_build(["lib/AnswerRecv.vo"])[0]
+        if bytes_ok:
+            correspond_bytes(ctx)
+        else:
+            ctx.note("byte-level model does not build: byte correspondence skipped")
     else:
         ctx.note("model does not build: correspondence skipped")
     if not ok and len(ctx.failures) == before:
@@ -75,8 +90,11 @@ def run_(ctx):
 
 
 # ------------------------------------------------------------------ direct oracle on real Brokers
-def one(ctx, impl, traces, tag, cfg):
+def one(ctx, impl, traces, tag, cfg, counter=[0]):
     safe_point()
+    # the byte-level history is recorded for every full run / corpus entry and for every k-th other scenario
+    counter[0] += 1
+    impl.RECORD_JOINT = tag in ("full", "corpus") or counter[0] % ctx.n(6, 12) == 0
     try:
         with impl.quiet():
             r = impl.scenario(cfg["calls"], cfg["cutA"], cfg["cutB"], cfg.get("chunkA", 7), cfg.get("chunkB", 7),
@@ -114,7 +132,14 @@ def one(ctx, impl, traces, tag, cfg):
     for f in r["fires"]:
         ctx.hist("outcome", impl.ONAME.get(f[0], "?") if f else "not-fired(one-way)")
     add_trace(traces, r["trace"], cfg)
+    if any(it[0] == "data" for it in r["joint"]) and not (cfg.get("loss") == "garbage-then-lost" and 0 < cfg["cutB"] < r["totalB"]):
+        # (garbage in the middle of a token is completed by the garbage: what the unslicers below the answer make of that
+        # is outside the concrete oracle of the correspondence)
+        JOINT.append((r["joint"], r["tasters"], r["max_index"], r["vocab"], cfg))
     return r
+
+
+JOINT = []
 
 
 _WHOLE = {}
@@ -491,3 +516,195 @@ def correspond(ctx, traces):
                              replay=dict(cfg=uniq[(ops, obs)], ops=[list(o) for o in ops], step=v, impl_snapshot=list(obs[v])),
                              has_input=False)
     ctx.extra["correspondence_disagreements"] = nbad
+
+
+# ------------------------------------------------------------------ correspondence of the byte-level receive model
+BODY_BYTES = """
+Require Import Coq.Numbers.Cyclic.Int63.Uint63.
+Local Open Scope Z_scope.
+(* bytes are written as 7-byte big-endian words (primitive integers parse fast), decoded with primitive operations *)
+Definition bitZ (b : int) (k : int) (v : Z) : Z := if Uint63.eqb (Uint63.land (Uint63.lsr b k) 1%uint63) 1%uint63 then v else 0.
+Definition byte_at (w : int) (sh : int) : Z :=
+  let b := Uint63.land (Uint63.lsr w sh) 255%uint63 in
+  bitZ b 0%uint63 1 + bitZ b 1%uint63 2 + bitZ b 2%uint63 4 + bitZ b 3%uint63 8 + bitZ b 4%uint63 16 + bitZ b 5%uint63 32
+  + bitZ b 6%uint63 64 + bitZ b 7%uint63 128.
+Definition bytes7 (w : int) : list Z :=
+  [byte_at w 48%uint63; byte_at w 40%uint63; byte_at w 32%uint63; byte_at w 24%uint63; byte_at w 16%uint63; byte_at w 8%uint63;
+   byte_at w 0%uint63].
+Definition unpack (len : Z) (ws : list int) : list Z := firstn (Z.to_nat len) (flat_map bytes7 ws).
+Definition coarse (o : outcome) : Z := match o with OResult => 1 | ODeadRef => 4 | _ => 0 end.
+Definition flat (s : st) : list Z :=
+  map fst (table s) ++ [-1] ++ flat_map (fun c => map coarse (c_fires c) ++ [-2]) (calls s)
+  ++ [-1; if disconnected s then 1 else 0] ++ map qcode (evq s) ++ [-1; Z.of_nat (raised s)].
+(* an item of a recorded history: an operation, or a run of chunks (bytes, chunk lengths) *)
+Inductive item := O (x : op) | R (n : Z) (ws : list int) (lens : list Z).
+Definition fl16 (s : rstate (actx coracle)) : list Z := map (fun z => z + 16) (flat (jst coracle s)).
+(* feed the chunks one by one; after every chunk but the last the request state must still be `prev` and the abandoned flag
+   `quiet`; returns the final state, or None *)
+Fixpoint feed_run (s : rstate (actx coracle)) (bytes : list Z) (lens : list Z) (prev : list Z) (quiet : bool) {struct lens}
+  : option (rstate (actx coracle)) :=
+  match lens with
+  | [] => Some s
+  | [l] => Some (fst (jstep coracle c_taste c_after s (JData bytes)))
+  | l :: lens' =>
+    let s' := fst (jstep coracle c_taste c_after s (JData (firstn (Z.to_nat l) bytes))) in
+    if list_eqb (fl16 s') prev && Bool.eqb (jdead coracle s') quiet
+    then feed_run s' (skipn (Z.to_nat l) bytes) lens' prev quiet else None
+  end.
+(* expected observation: (n, words, d): the flat snapshot shifted by 16, packed (n = -1: unchanged); d = 1 the connection is
+   abandoned / 0 it is not / 2 not observed *)
+Fixpoint jcheck (s : rstate (actx coracle)) (js : list item) (obs : list (Z * list int * Z)) (prev : list Z) (i : Z) {struct js} : Z :=
+  match js, obs with
+  | j :: js', (n, ws, d) :: obs' =>
+    let want := if n <? 0 then prev else unpack n ws in
+    match (match j with
+           | O x => Some (fst (jstep coracle c_taste c_after s (JOp x)))
+           | R m w lens => feed_run s (unpack m w) lens prev (10 <=? d)
+           end) with
+    | None => i
+    | Some s' =>
+      let dd := d mod 10 in
+      if list_eqb (fl16 s') want && ((dd =? 2) || Bool.eqb (jdead coracle s') (dd =? 1))
+      then jcheck s' js' obs' want (i + 1) else i
+    end
+  | _, _ => -1
+  end.
+Definition copyable := [99; 111; 112; 121; 97; 98; 108; 101].
+Definition go (tasters : list (option taster)) (maxidx maxcop : Z) (voc : list (Z * list Z)) (js : list item) (obs : list (Z * list int * Z)) : Z :=
+  jcheck (jinit coracle {| co_tasters := tasters; co_max_index := maxidx; co_copyable := copyable; co_max_copyable := maxcop; co_second := false |} voc) js obs [] 0.
+"""
+
+
+def pack(b):
+    """bytes -> 'n [w1;w2;..]%uint63' (7 bytes per word, big-endian, zero padded)"""
+    ws = [str(int.from_bytes(b[i:i + 7].ljust(7, b"\0"), "big")) for i in range(0, len(b), 7)]
+    return "%d [%s]%%uint63" % (len(b), ";".join(ws))
+
+
+REQ_BYTES = REQ + ["Verif.lib.Token", "Verif.lib.Recv", "Verif.lib.AnswerRecv"]
+
+
+def coq_taster(t):
+    if t is None:
+        return "None"
+    return "(Some %s)" % coq_list(["(%d, %s)" % (ty, "None" if lim is None else "(Some %d)" % lim) for ty, lim in t])
+
+
+def correspond_bytes(ctx):
+    """the byte-level receive model (lib/AnswerRecv.v) against the real Broker: the caller's history with every dataReceived
+    as one item (the bytes), the operations that happen OUTSIDE dataReceived as they were recorded; what the bytes do to the
+    request table and to the Deferreds is computed by the model and compared after every item.  Consecutive chunks after
+    which the implementation's snapshot did not change are written as one run (bytes + chunk lengths): the model is fed
+    chunk by chunk and must not change either."""
+    from harness import c03_impl as impl
+    total = len(JOINT)
+    limit = ctx.n(250, 4000)
+    rows = JOINT
+    if len(rows) > limit:
+        keep = [r for r in rows if r[4].get("cutA", 0) >= 10 ** 9 and r[4].get("cutB", 0) >= 10 ** 9][:limit // 4]
+        rest = [r for r in rows if not any(r is k for k in keep)]
+        rows = keep + ctx.rng.sample(rest, limit - len(keep))
+    seen = set()
+    rows_all = []
+    for joint, tasters, (maxidx, maxcop), vocab, cfg in rows:
+        key = (tuple((it[0], it[1]) for it in joint), json.dumps(tasters))
+        if key in seen:
+            continue
+        seen.add(key)
+        rows_all.append((joint, tasters, maxidx, maxcop, vocab, cfg))
+    ctx.extra["byte_correspondence_histories_available"] = total
+    ctx.extra["byte_correspondence_histories"] = len(rows_all)
+    ctx.extra["byte_correspondence_bytes"] = sum(len(it[1]) for r in rows_all for it in r[0] if it[0] == "data")
+    ctx.extra["byte_correspondence_chunks"] = sum(1 for r in rows_all for it in r[0] if it[0] == "data")
+    nbad = 0
+    shard = 200
+    flat_cache = {}
+
+    def enc_of(snap):
+        k = id(snap)
+        if k not in flat_cache:
+            fl = flat(snap)
+            flat_cache[k] = (bytes(x + 16 for x in fl) if all(-16 <= x < 240 for x in fl) else None, snap)
+        return flat_cache[k][0]
+    for si in range(0, len(rows_all), shard):
+        part = rows_all[si:si + shard]
+        lines = []
+        index_maps = []
+        for joint, tasters, maxidx, maxcop, vocab, cfg in part:
+            js, obs, imap = [], [], []
+            prev = None
+            unchanged = "-1, []"
+            i = 0
+            ok_enc = True
+            while i < len(joint):
+                it = joint[i]
+                enc = enc_of(it[2])
+                if enc is None:
+                    ok_enc = False
+                    break
+                if it[0] == "op":
+                    js.append("O (%s)" % coq_op(it[1], impl))
+                    obs.append("(%s, 2)" % (unchanged if enc == prev else pack(enc).replace(" [", ", [", 1)))
+                    imap.append(i)
+                    prev = enc
+                    i += 1
+                    continue
+                # a run of data chunks: all but the last leave snapshot and abandoned-flag as they were before the run
+                j = i
+                lens = []
+                data = b""
+                while True:
+                    lens.append(len(joint[j][1]))
+                    data += joint[j][1]
+                    e_j = enc_of(joint[j][2])
+                    last = (j + 1 >= len(joint) or joint[j + 1][0] != "data" or e_j != prev or joint[j][3] != joint[i][3]
+                            or e_j is None or (j > i and joint[j][3] != joint[j - 1][3]))
+                    if e_j != prev or last:
+                        break
+                    j += 1
+                # chunks i..j; chunks before j had snapshot == prev; abandoned flag of the run = that of chunk j, and the
+                # earlier ones must equal the flag before the run unless they equal chunk j's (checked by the model as "quiet")
+                quiet_flag = joint[i][3] if j > i else joint[j][3]
+                if any(joint[k][3] != quiet_flag for k in range(i, j)):
+                    # abandoned changed inside the quiet part: split the run there (rare); fall back to single chunks
+                    j = i
+                    lens = [len(joint[i][1])]
+                    data = joint[i][1]
+                e_j = enc_of(joint[j][2])
+                if e_j is None:
+                    ok_enc = False
+                    break
+                js.append("R %s %s" % (pack(data), "[" + ";".join(str(x) for x in lens) + "]"))
+                obs.append("(%s, %d)" % (unchanged if e_j == prev else pack(e_j).replace(" [", ", [", 1),
+                                         (1 if joint[j][3] else 0) + (10 if quiet_flag else 0)))
+                imap.append(j)
+                prev = e_j
+                i = j + 1
+            if not ok_enc:
+                lines.append("Eval vm_compute in (-1)%Z.")
+                index_maps.append([])
+                ctx.hist("byte_correspondence", "skipped: snapshot value out of the compact range")
+                continue
+            index_maps.append(imap)
+            voc = coq_list(["(%d, %s)" % (k, coq_list([str(b) for b in v])) for k, v in sorted(vocab.items())])
+            lines.append("Eval vm_compute in go %s %d %d %s %s %s." % (coq_list([coq_taster(t) for t in tasters]), maxidx, maxcop, voc,
+                                                                      coq_list(js), coq_list(obs)))
+        try:
+            vals = ctx.coq_eval("C03_bytes_%d" % (si // shard), BODY_BYTES + "\n".join(lines) + "\n", requires=REQ_BYTES)
+        except common.CoqEvalError as e:
+            ctx.fail("correspondence-broken", "the byte-level model could not be evaluated: " + str(e)[-1500:], has_input=False)
+            return
+        for (joint, tasters, maxidx, maxcop, vocab, cfg), imap, v in zip(part, index_maps, vals):
+            ctx.traces += 1
+            if v != -1:
+                nbad += 1
+                if nbad <= 3:
+                    it = joint[imap[v]] if v < len(imap) else joint[-1]
+                    ctx.fail("correspondence/bytes-to-requests",
+                             "byte-level model and implementation disagree at item %d (%s) of the history recorded for %r: "
+                             "implementation snapshot %r" % (imap[v] if v < len(imap) else -1,
+                                                             ("the run of dataReceived calls ending with %d bytes %s.." % (len(it[1]), it[1][:24].hex()))
+                                                             if it[0] == "data" else repr(it[1]), cfg, flat(it[2])),
+                             replay=dict(cfg=cfg, item=v, items=[[i[0], i[1].hex() if i[0] == "data" else list(i[1])] for i in joint]),
+                             has_input=False)
+    ctx.extra["byte_correspondence_disagreements"] = nbad
